@@ -9,7 +9,7 @@ META = {
     "engine": "Limits",
     "technique": "TLA+ model of the per-function resource counters and of the operand encodings (int8 registers, int8->uint8 table indexes, 2+14-bit value index, 16/24-bit addresses) checked exhaustively by TLC; TLC exports a sweep plan per resource; a Go driver writes a program/template needing n units, locates the real threshold by galloping+bisection, builds and runs every program with the real scriggo; a TLC Trace spec recomputes each program's checksum and judges 'limit-exceeded BuildError or correct output, nothing else'",
     "level": "model_checking",
-    "level_text": "TLC explores every index below every limit (4 x 16384 value indexes of OpLoad, 6 x 256 table indexes, 4 x 127 registers: 67608 states) and checks that what the compiler encodes is what the VM decodes (two's complement casts transcribed), that Alloc refuses exactly at the limit and never beyond what the operand can hold, plus the 16-bit (all 65536 values in the thorough tier, byte-edge product in quick) and 24-bit (byte-edge product, every address below 2^17 in thorough) address round trips; a second small model of the allocation paths that have no limit test / no uint8 cast (call sites) yields design-level counterexamples (diagnostic), and a negative control (128 registers) must violate Faithful. For 21 program-level resources, programs and templates with n units, for n around the spec's capacity and around the threshold actually found by galloping+bisection, are built and run by the real code and each outcome is judged by the TLA+ reference (checksum recomputed by TLC).",
+    "level_text": "TLC explores every index below every limit (4 x 16384 value indexes of OpLoad, 6 x 256 table indexes, 4 x 127 registers: 67608 states) and checks that what the compiler encodes is what the VM decodes (two's complement casts transcribed), that Alloc refuses exactly at the limit and never beyond what the operand can hold, plus the 16-bit (all 65536 values in the thorough tier, byte-edge product in quick) and 24-bit (byte-edge product, every address below 2^17 in thorough) address round trips; negative controls (the no-limit-test and no-uint8-cast shapes the call-site paths had before they were fixed; 128 registers) must violate Faithful. For 38 program-level resources (39 in the thorough tier), including variants whose last entries around the limit come from the separately treated allocation paths (nil, zero values of non-comparable types, composite zero values, function values/literals, map-key selectors) and resources consumed by package-level initialisers ($initvars) of the main package, an imported package and an imported template file, programs and templates with n units, for n around the spec's capacity and around the threshold actually found by galloping+bisection, are built and run by the real code and each outcome is judged by the TLA+ reference (checksum recomputed by TLC).",
     "level_note": "Trusted: TLC, the Json module, the Go driver (writes programs, classifies errors by public types and the word 'exceeded', cancels a run after 40 s three times in a row; no expected values). The judge is not tied to limit values: a lowered or raised limit passes; only a third outcome (wrong output, panic, host panic, other error, hang) fails. On the violation path only, wrong-checksum programs are also run under gc (oracle guard). Not covered: the 2^24 instruction limit of jump targets (needs >3M statements; builder.go only refuses above 2^32), package-level variable indexes beyond 508 (registers run out first), float-valued checksums, limits inside macros/imported packages, Disassemble (panics on function index >= 128, outside the property).",
     "design_ref": "7/C20",
 }
@@ -99,16 +99,14 @@ def run(ctx, only=None):
         cases = wd / "cases.ndjson"
         if not cases.exists():
             raise Infra("no cases.ndjson exported by MC_Limits")
-        # 1b. the allocation paths without a limit test (call sites): design-level counterexamples (diagnostic)
+        # 1b. negative control: the two defective shapes (no limit test / no uint8 cast) that the call-site
+        # allocation paths had before they were fixed must violate Faithful in the model
         wd2, r2 = mc(ctx, "mc_callsites", "callsites", span, False, workers=1)
-        if r2.invariant_violated:
-            fu = re.findall(r'<<"first_unfaithful", "(\w+)", "(\w+)", (\d+)>>', r2.out)
-            ctx.cov["model_counterexample"] = {"model": "call-site allocation paths (emitter_func_store.go, emitter_assignment.go)",
-                                               "invariants": r2.invariant_violated,
-                                               "first_count_read_back_wrong": {f"{a}/{b}": int(c) for a, b, c in fu},
-                                               "tlc_out": str(wd2 / "MC_Limits.out")}
-        elif not r2.ok:
-            raise Infra(f"MC_Limits (callsites) failed: {wd2}/MC_Limits.out\n" + rig.tail(r2.out, 30))
+        fu = re.findall(r'<<"first_unfaithful", "(\w+)", "(\w+)", (\d+)>>', r2.out)
+        ctx.cov["model_negative_control_shapes"] = {"violated": r2.invariant_violated,
+                                                    "first_count_read_back_wrong": {f"{x}/{y}": int(z) for x, y, z in fu}}
+        if "Faithful" not in r2.invariant_violated:
+            raise Infra(f"negative control: defective allocation shapes do not violate Faithful: {wd2}/MC_Limits.out")
         # 1c. negative control of the model: one register more than int8 holds must break Faithful
         if not ctx.quick:
             _, r3 = mc(ctx, "mc_negctl", "negctl", span, False, model=dict(MODEL, MaxRegisters=128, MaxValues14=300))
